@@ -53,6 +53,9 @@ var flatVals = []interface{}{
 	bson.D{{Key: "x", Value: int32(1)}}, bson.D{{Key: "x", Value: float64(1)}}, bson.D{{Key: "x", Value: int32(2)}}, bson.D{{Key: "x", Value: bson.A{int32(1), int32(2)}}},
 	primitive.DateTime(1000), primitive.DateTime(4102444800000),
 	bson.A{bson.D{{Key: "x", Value: int32(1)}, {Key: "q", Value: int32(5)}}, bson.D{{Key: "x", Value: int32(2)}, {Key: "q", Value: int32(6)}}},
+	// a double and the decimal with the same shortest rendering (two numbers);
+	// a double and the decimal that is exactly its value (one number)
+	float64(0.1), gen.D128("0.1"), float64(1.0 / (1 << 30)), gen.D128("9.31322574615478515625E-10"),
 }
 
 var poisonVals = []interface{}{int32(1), int32(7), "str", bson.A{int32(1)}, int64(5), nil, bson.D{{Key: "q", Value: int32(1)}}}
@@ -500,6 +503,16 @@ func (g *HistGen) Next() Op {
 			op.Models = append(op.Models, g.writeModel(db, coll, docs))
 		}
 		op.Ordered = r.Bool()
+		if r.Chance(1, 6) {
+			// neighbouring update models: the first brings array filters, the
+			// second uses the same identifier without any (it must be rejected
+			// on its own, whatever its neighbour brought)
+			id := fw.Pick(r, []string{"e", "g"})
+			upd := bson.D{{Key: "$set", Value: bson.D{{Key: "a.$[" + id + "]", Value: int32(9)}}}}
+			with := Op{Kind: UpdateMany, DB: db, Coll: coll, Filter: bson.D{}, Update: upd, ArrayFilters: []bson.D{{{Key: id, Value: bson.D{{Key: "$gte", Value: int32(2)}}}}}}
+			without := Op{Kind: UpdateMany, DB: db, Coll: coll, Filter: bson.D{}, Update: gen.CloneDoc(upd)}
+			op.Models = append([]Op{with, without}, op.Models...)
+		}
 	case CreateIndex:
 		op.Index = g.IndexSpec()
 	case CreateIndexes:
